@@ -59,9 +59,9 @@ func applySpec(s oset, text string) (oset, bool) {
 		return n, fmt.Sprint(r) == f[2]
 	case "has":
 		return s, fmt.Sprint(s.has(parseList(f[1])[0])) == f[2]
-	case "apply", "compute":
+	case "apply", "compute", "computesaw":
 		adds, dels := parseList(f[1]), parseList(f[2])
-		if f[0] == "compute" {
+		if f[0] != "apply" {
 			dm := toMap(dels)
 			dels = nil
 			for _, x := range s {
@@ -69,6 +69,14 @@ func applySpec(s oset, text string) (oset, bool) {
 					dels = append(dels, x)
 				}
 			}
+		}
+		if f[0] == "computesaw" {
+			// kind;adds;dels;seen;added;deleted - Compute is one atomic step: what its factory saw of `dels` is what is in
+			// the set at the point where the call takes effect
+			if !sameList(dels, parseList(f[3])) {
+				return s, false
+			}
+			f = append(append([]string(nil), f[:3]...), f[4:]...)
 		}
 		cur := s
 		var ra, rd []E
